@@ -68,6 +68,9 @@ VizStep ==
                    proj |-> IF j.out = "ok" /\ j.with_aliases THEN Projection(j, a.modules) ELSE <<>>] IN
        /\ \A f \in VizFails(j, a.modules) : Report(f[1], f[2], j.rid)
        /\ IF j.same THEN TRUE ELSE Report("C15", "architecture-changed-by-visualize", j.rid)
+       \* session replays (Session.tla, Visualize) repeat the call on a freshly built architecture with the same imports
+       /\ IF "fresh_same" \in DOMAIN j /\ ~j.fresh_same
+          THEN Report("C15", "labels-depend-on-history-or-on-the-architecture-object", j.rid) ELSE TRUE
        /\ results' = IF j.keep THEN (<<j.a, j.rid>> :> rec) @@ results ELSE results
     /\ UNCHANGED archs
 
